@@ -304,3 +304,11 @@ Proof.
       rewrite (Hnil eq_refl). eauto.
     + destruct p as [|x p]; [discriminate|]. injection E as <- E. apply (Hlast p t E).
 Qed.
+
+Lemma lexed_cons_inv data rest t ts : lexed data rest (t :: ts) ->
+  exists pre g raw rest', rest = g ++ raw ++ rest' /\ data = pre ++ g ++ raw ++ rest' /\ ws_only g /\
+    raw_ok t raw rest' /\ p_byte (t_pos t) = Z.of_nat (length (pre ++ g)) /\ lexed data rest' ts.
+Proof.
+  intros H. inversion H as [|pre g raw rest' t' ts' Ed Hg Hraw Hp Hl]. exists pre, g, raw, rest'.
+  repeat split; auto.
+Qed.
